@@ -107,6 +107,14 @@ CHECKS = {
         "D15 (angle-bracket heuristic of _consume_balanced_tokens) is a known finding matched by class (failure disappears when '<' '>' are removed).",
         "DESIGN.md 3/C13",
     ),
+    "C14": (
+        "model_checking",
+        "CrossHair (z3) exhaustive exploration of 23 value-bearing positions x a 68-expression token grammar and of all token strings through _consume_value_until, on the real parser; oracle: the expression's own token texts minus the documented delimiters, following declaration intact",
+        "Every (position, expression) pair and every kernel token string inside the bound is parsed by the real parser and compared with the expression's own token list; "
+        "'Confirmed over all paths' = the bounded space was exhausted. Known findings (D5 glued ]] and D16 angle-bracket heuristic) are listed per (position, expression) and are part of the assertion, so any other failing pair is reported.",
+        "Bound: 23 positions, 68 expressions, kernel strings <=5 (quick) / 6 (thorough) tokens over 11 kinds. Expected tokens come from lexing the expression alone with the real lexer (lexing is C08).",
+        "DESIGN.md 3/C14",
+    ),
 }
 
 NOT_YET = "no check landed yet in this build (planned engine and bounds: DESIGN.md section 3); not claimed until the check runs green"
